@@ -10,9 +10,15 @@
   subpackage_scenarios     metamodels with nested sub-packages holding SAME-NAMED classes (and same-named
       enumerations / data types) whose same-named features differ in type or kind (EString / EInt / enum /
       custom data type, single / many, attribute / reference / containment); instances of all of them in
-      one document, in random order; the round trip is compared exactly: class identity (package path),
-      value AND Python type of every attribute value (a str where a literal is expected is a difference,
-      so is a literal of the other package's enumeration), reference targets by name.
+      one document, in random order -- in their typed containment slots, in a polymorphic slot (abstract
+      supertype: xsi:type / "eClass" needed) and as further roots; the namespace prefixes of the 3-4 packages
+      are distinct, all equal, equal in pairs, or look like the names the XMI writer gives to a prefix that
+      is taken (p, p_1, p_2 in any order); enumeration literals are renamed in place after they were added
+      (before and after instances exist) and literals are added (and used) after instances exist; the
+      round trip is compared exactly: class identity (package path), value AND Python type of every
+      attribute value (a str or None where a literal is expected is a difference, so is a literal of the
+      other package's enumeration), reference targets by name.  Every package is registered in the
+      resource sets under its own nsURI (XMI names a package by it).
 
 Each family draws from its own PRNG stream common.rng_for(seed, '<prop>:<family>'); a failing case carries
 'scenario', 'seed', 'tier', 'history' and is replayed by common.scenario_replay.
@@ -35,7 +41,12 @@ def _rset(fmt, pkg):
     rs = ResourceSet()
     if fmt == 'json':
         rs.resource_factory['json'] = lambda uri, **kw: JsonResource(uri, **kw)
-    rs.metamodel_registry[pkg.nsURI] = pkg
+    def register(p):
+        # (XMI names a package by its own nsURI: sub-packages are registered like their root)
+        rs.metamodel_registry[p.nsURI] = p
+        for q in p.eSubpackages:
+            register(q)
+    register(pkg)
     return rs
 
 
@@ -278,23 +289,49 @@ def _subpackage_metamodel(rng, serial):
     classes 'Item' and 'Part', its own enumeration 'Kind' and data type 'Code'; the features 'status' and 'extra' of the
     Items (and 'status' of the Parts) have a shape drawn per package"""
     from pyecore.ecore import EClass, EAttribute, EReference, EString, EInt, EPackage, EEnum, EDataType
-    root = EPackage('box', nsURI=f'http://verif/c09/subpackages/{serial}', nsPrefix='box')
-    Box, Leaf = EClass('Box'), EClass('Leaf')
+    nsub = rng.choice([2, 3, 3])
+    # namespace prefixes: distinct, all equal, equal in pairs, or looking like the names the XMI writer gives to a
+    # prefix that is already taken (p_1, p_2), in any order
+    scheme = rng.choice(['distinct', 'all-equal', 'all-equal', 'pairs', 'rename-like', 'rename-like'])
+    if scheme == 'distinct':
+        prefixes = ['box'] + [f's{i}' for i in range(nsub)]
+    elif scheme == 'all-equal':
+        prefixes = ['p'] * (nsub + 1)
+    elif scheme == 'pairs':
+        prefixes = (['p', 'p', 'q', 'q'])[:nsub + 1]
+        rng.shuffle(prefixes)
+    else:
+        prefixes = rng.choice([['p', 'p_2', 'p', 'p'], ['p', 'p_1', 'p', 'p_2'], ['p', 'p', 'p_1', 'p'], ['p_1', 'p', 'p', 'p_2'],
+                               ['p', 'p_2', 'p', 'p_3']])[:nsub + 1]
+        if rng.random() < 0.5:
+            rng.shuffle(prefixes)
+    root = EPackage('box', nsURI=f'http://verif/c09/subpackages/{serial}', nsPrefix=prefixes[0])
+    Box, Leaf, Thing = EClass('Box'), EClass('Leaf'), EClass('Thing', abstract=True)
     Leaf.eStructuralFeatures.append(EAttribute('name', EString))
     Box.eStructuralFeatures.append(EReference('leaves', Leaf, upper=-1, containment=True))
-    root.eClassifiers.extend([Box, Leaf])
+    Box.eStructuralFeatures.append(EReference('things', Thing, upper=-1, containment=True))      # polymorphic slot
+    root.eClassifiers.extend([Box, Leaf, Thing])
     subs = []
     parent = root
     lits = [['ACTIVE', 'RETIRED'], ['RETIRED', 'LOST', 'ACTIVE'], ['NEW', 'ACTIVE']]
-    for i in range(rng.choice([2, 2, 3])):
-        sub = EPackage(f's{i}', nsURI=f'{root.nsURI}/s{i}', nsPrefix=f's{i}')
+    for i in range(nsub):
+        sub = EPackage(f's{i}', nsURI=f'{root.nsURI}/s{i}', nsPrefix=prefixes[i + 1])
         (parent if rng.random() < 0.4 else root).eSubpackages.append(sub)
         parent = sub
         Kind = EEnum('Kind', literals=list(lits[i]))
         # same name, different conversions: upper-cased text / an int written as text
         Code = (EDataType('Code', str, from_string=lambda s: s.upper(), to_string=lambda v: v.lower()) if i % 2 == 0
                 else EDataType('Code', int, from_string=lambda s: int(s), to_string=lambda v: str(v)))
-        Item, Part = EClass('Item'), EClass('Part')
+        renamed = None
+        if rng.random() < 0.5:
+            # a literal renamed in place after it was added to its enumeration
+            lit = rng.choice(list(Kind.eLiterals))
+            renamed = [lit.name, rng.choice(['GONE', 'RETIRED', 'Active', lit.name + '2'])]
+            if renamed[1] not in [x.name for x in Kind.eLiterals]:
+                lit.name = renamed[1]
+            else:
+                renamed = None
+        Item, Part = EClass('Item', superclass=(Thing,)), EClass('Part', superclass=(Thing,))
         Part.eStructuralFeatures.append(EAttribute('name', EString))
         Item.eStructuralFeatures.append(EAttribute('name', EString))
         sub.eClassifiers.extend([Kind, Code, Item, Part])
@@ -313,8 +350,9 @@ def _subpackage_metamodel(rng, serial):
                 owner.eStructuralFeatures.append(EReference(fname, Part, upper=-1 if many else 1, containment=True))
         Box.eStructuralFeatures.append(EReference(f'items{i}', Item, upper=-1, containment=True))
         Box.eStructuralFeatures.append(EReference(f'parts{i}', Part, upper=-1, containment=True))
-        subs.append({'pkg': sub, 'Item': Item, 'Part': Part, 'Kind': Kind, 'Code': Code, 'odd': i % 2, 'shapes': shapes, 'i': i})
-    return root, Box, Leaf, subs
+        subs.append({'pkg': sub, 'Item': Item, 'Part': Part, 'Kind': Kind, 'Code': Code, 'odd': i % 2, 'shapes': shapes, 'i': i,
+                     'renamed': renamed})
+    return root, Box, Leaf, subs, [scheme] + prefixes
 
 
 def _exact(v):
@@ -345,9 +383,11 @@ def subpackage_scenarios(ctx, out, fmt='json', prop='C09'):
     rng = common.rng_for(ctx.seed, f'{prop}:subpackages')
     n = 100 if ctx.tier != 'thorough' else 1500
     ext = 'json' if fmt == 'json' else 'xmi'
-    st = {'documents': 0, 'shape_pairs_differing': 0, 'objects': 0, 'shapes': {}, 'nested_subpackages': 0}
+    st = {'documents': 0, 'shape_pairs_differing': 0, 'objects': 0, 'shapes': {}, 'nested_subpackages': 0, 'prefix_schemes': {},
+          'placements': {}, 'literals_renamed_in_place': 0, 'literals_added_after_instances': 0}
     for it in range(n):
-        root, Box, Leaf, subs = _subpackage_metamodel(rng, f'{fmt}{it}')
+        root, Box, Leaf, subs, prefixes = _subpackage_metamodel(rng, f'{fmt}{it}')
+        st['prefix_schemes'][prefixes[0]] = st['prefix_schemes'].get(prefixes[0], 0) + 1
         if any(s['pkg'].eSuperPackage is not root for s in subs):
             st['nested_subpackages'] += 1
         if len({s['shapes'][('Item', 'status')] for s in subs}) > 1:
@@ -355,7 +395,9 @@ def subpackage_scenarios(ctx, out, fmt='json', prop='C09'):
         box = Box()
         leaves = [Leaf(name=f'leaf{j}') for j in range(3)]
         box.leaves.extend(leaves)
-        hist = [[_qualified(s['pkg']), sorted([f'{k[0]}.{k[1]}', v] for k, v in s['shapes'].items())] for s in subs]
+        hist = [prefixes] + [[_qualified(s['pkg']), s['renamed'], sorted([f'{k[0]}.{k[1]}', v] for k, v in s['shapes'].items())]
+                             for s in subs]
+        st['literals_renamed_in_place'] += sum(1 for s in subs if s['renamed'])
         serial = [0]
 
         def value(s, base):
@@ -392,29 +434,63 @@ def subpackage_scenarios(ctx, out, fmt='json', prop='C09'):
         # instances of every package, the order between the packages drawn (the class seen first differs)
         plan = [(s, kind) for s in subs for kind in ('Item', 'Item', 'Part') if rng.random() < 0.85]
         rng.shuffle(plan)
+        extra_roots, placed = [], []
         for s, kind in plan:
-            box.eGet(f'{"items" if kind == "Item" else "parts"}{s["i"]}').append(fill(s, s[kind](), kind))
-        hist.append([f'{kind}@{_qualified(s["pkg"])}' for s, kind in plan])
+            o = fill(s, s[kind](), kind)
+            where = rng.choice(['typed', 'typed', 'things', 'things', 'root'])
+            st['placements'][where] = st['placements'].get(where, 0) + 1
+            placed.append(f'{kind}@{_qualified(s["pkg"])}>{where}')
+            if where == 'typed':
+                box.eGet(f'{"items" if kind == "Item" else "parts"}{s["i"]}').append(o)
+            elif where == 'things':
+                box.things.append(o)
+            else:
+                extra_roots.append(o)
+        hist.append(placed)
+        # the enumerations keep changing while instances exist: a literal is added (and used), another renamed in place
+        from pyecore.ecore import EEnumLiteral
+        late = []
+        for s in subs:
+            users = [(o, f) for o in [box] + list(box.eAllContents()) + extra_roots
+                     for f in o.eClass.eAllStructuralFeatures() if f.is_attribute and f.eType is s['Kind']]
+            r = rng.random()
+            if r < 0.35:
+                lit = EEnumLiteral(name='LATE')
+                s['Kind'].eLiterals.append(lit)
+                st['literals_added_after_instances'] += 1
+                late.append(['added', s['i']])
+                for o, f in users:
+                    if rng.random() < 0.6:
+                        o.eGet(f).append(lit) if f.many else o.eSet(f, lit)
+            elif r < 0.6:
+                lit = rng.choice(list(s['Kind'].eLiterals))
+                lit.name = lit.name + '_r'
+                st['literals_renamed_in_place'] += 1
+                late.append(['renamed', s['i'], lit.name])
+        hist.append(late)
         case = {'scenario': 'subpackages', 'seed': ctx.seed, 'tier': ctx.tier, 'format': fmt, 'history': hist}
         sig = {'property': prop, 'clause': 'same-named-classes-in-subpackages', 'format': fmt}
-        want = _subpackage_dump(box)
+        want = [_subpackage_dump(r) for r in [box] + extra_roots]
         st['documents'] += 1
         with tempfile.TemporaryDirectory(prefix='verif_subpkg_') as tmp:
             path = os.path.join(tmp, f'box.{ext}')
             try:
                 res = _rset(fmt, root).create_resource(URI(path))
-                res.append(box)
+                for r in [box] + extra_roots:
+                    res.append(r)
                 res.save()
             except Exception as e:      # noqa
                 out.fail(dict(sig, stage='save'), f'save raised {type(e).__name__}: {e} on {hist}', case)
                 continue
             try:
-                got = _subpackage_dump(_rset(fmt, root).get_resource(URI(path)).contents[0])
+                got = [_subpackage_dump(r) for r in _rset(fmt, root).get_resource(URI(path)).contents]
             except Exception as e:      # noqa
                 out.fail(dict(sig, stage='load'), f'load / reading the loaded model raised {type(e).__name__}: {e} on {hist}', case)
                 continue
         if got != want:
-            out.fail(dict(sig, stage='compare'), f'the loaded model differs: {_first_diff(want, got)} on {hist}', case)
+            pair = next(((a, b) for a, b in zip(want, got) if a != b), (None, None))
+            what = _first_diff(*pair) if pair[0] is not None else f'{len(want)} roots saved, {len(got)} loaded'
+            out.fail(dict(sig, stage='compare'), f'the loaded model differs: {what} on {hist}', case)
     out.coverage[f'subpackages_{fmt}'] = st
 
 
